@@ -95,6 +95,7 @@ fn fault_opts() -> GraphOpts {
         decoys: false,
         mark_all: false,
         sized: true,
+        wide: true,
     }
 }
 
